@@ -226,6 +226,7 @@ Inductive op :=
 | OArrClone (s d : nat)            (* mpt_array_clone(&arr[d], &arr[s]) *)
 | OArrClear (d : nat)              (* mpt_array_clone(&arr[d], 0) *)
 | ODetach (a : nat)                (* arr[a]._buf = buf->_vptr->detach(buf, len) *)
+| ODetachF (a : nat)               (* detach while the content cannot be copied (typed, partial last element) *)
 | OSetInner (m a : nat)            (* mpt_array_clone(&rawdata->st, &arr[a]) *)
 | ODefer (s d : nat)               (* reply_context::defer *)
 | OForce (s : nat) (v : N)         (* write the counter field *)
@@ -261,6 +262,7 @@ Definition guard (hsl : list (option nat)) (kd : nat -> option kind) (hld : nat 
   match o with
   | ONew k d => creatable k && kind_in_bank k (bank d) && is_none (sl d)
   | OMetaBuf a d => (bank a =? 1) && (bank d =? 0) && is_none (sl d)
+                    && (is_none (sl a) || kind_is kd (sl a) is_buf)   (* bank 1 holds buffers *)
   | OAddref s d => (bank s =? bank d) && ((bank s =? 0) || (bank s =? 1) || (bank s =? 4))
                    && negb (is_none (sl s)) && is_none (sl d)
   | OUnref s => ((bank s =? 0) || (bank s =? 1) || (bank s =? 2) || (bank s =? 4)) && negb (is_none (sl s))
@@ -272,8 +274,9 @@ Definition guard (hsl : list (option nat)) (kd : nat -> option kind) (hld : nat 
   | ORefCopy => is_none (sl 3) && is_none (sl 4) && is_none (sl 5)
   | OArrClone s d => (bank s =? 1) && (bank d =? 1)
   | OArrClear d => bank d =? 1
-  | ODetach a => (bank a =? 1) && kind_is kd (sl a) is_libbuf
+  | ODetach a | ODetachF a => (bank a =? 1) && kind_is kd (sl a) is_libbuf
   | OSetInner m a => (bank m =? 0) && (bank a =? 1) && kind_is kd (sl m) is_raw
+                     && (is_none (sl a) || kind_is kd (sl a) is_buf)
   | ODefer s d => (bank s =? 0) && (bank d =? 2) && kind_is kd (sl s) is_reply && is_none (sl d)
   | OForce s v => ((bank s =? 0) || (bank s =? 1) || (bank s =? 3))
                   && kind_is kd (sl s) is_counted
@@ -397,6 +400,15 @@ Definition p_detach (s : st) (a o : nat) : res (st * out) :=
   do s3 <- m_unref s2 o;                        (* mpt_refcount_lower(&buf->_ref): copy, or move + free at 0 *)
   Ok (m_put s3 a (Some n), ORet 1).
 
+(* _mpt_buffer_alloc_detach when mpt_buffer_set() refuses the copy (BadArgument) *)
+Definition p_detachf (s : st) (o : nat) : res (st * out) :=
+  do x <- live s o;
+  if (ocnt x <? 2)%N then Ok (s, ORet 0) else   (* not shared: same buffer *)
+  let '(c1, r) := lower (ocnt x) in             (* mpt_refcount_lower(&buf->_ref) *)
+  if (r =? 0)%N then Fault else                 (* (move path: needs a count of 1, excluded above) *)
+  let '(c2, _) := raise c1 in                   (* copy failed: unref(next); mpt_refcount_raise(&buf->_ref); return 0 *)
+  Ok (set_obj s o (with_cnt x c2), OE).
+
 (* mpt_array_clone(&rd->st, &arr[a]) *)
 Definition p_setinner (s : st) (o a : nat) : res (st * out) :=
   do x <- live s o;
@@ -489,6 +501,7 @@ Definition exec (s : st) (o : op) : res (st * out) :=
   | OArrClone si d => p_arrclone s si d
   | OArrClear d => p_arrclear s d
   | ODetach a => match slot s a with Some o => p_detach s a o | None => Ok (s, OX) end
+  | ODetachF a => match slot s a with Some o => p_detachf s o | None => Ok (s, OX) end
   | OSetInner m a => match slot s m with Some o => p_setinner s o a | None => Ok (s, OX) end
   | OForce i v => match slot s i with Some o => p_force s o v | None => Ok (s, OX) end
   | OUnforce => do s1 <- unforce s 0 (length (objs s)); Ok (s1, OD)
